@@ -63,10 +63,19 @@ def const_val(e):
 
 
 class ExprBuilder:
-    def __init__(self, body, fold_local_calls=None):
+    def __init__(self, body, fold_local_calls=None, place_hook=None):
+        """place_hook(place_json, bb) -> expr | None : lets a rule give location-dependent
+        meaning to a place read (bb = block of the statement that reads it)."""
         self.body = body
         self.memo = {}
         self.onstack = set()
+        self.place_hook = place_hook
+        self.cur_bb = None
+
+    def at(self, bb):
+        """set the location for operands evaluated directly by the caller"""
+        self.cur_bb = bb
+        return self
 
     # ---- operands
     def op(self, o):
@@ -124,6 +133,10 @@ class ExprBuilder:
 
     # ---- places
     def place(self, p):
+        if self.place_hook is not None:
+            r = self.place_hook(p, self.cur_bb)
+            if r is not None:
+                return r
         e = self.local(p["local"])
         return self.project(e, p["proj"])
 
@@ -184,13 +197,16 @@ class ExprBuilder:
                 self.memo[l] = e
             return e
         self.onstack.add(l)
+        saved = self.cur_bb
         try:
             bb, idx, item = ds[0]
+            self.cur_bb = bb
             if idx == "term":
                 e = self.call(item)
             else:
                 e = self.rvalue(item["rv"])
         finally:
+            self.cur_bb = saved
             self.onstack.discard(l)
         self.memo[l] = e
         return e
@@ -198,10 +214,13 @@ class ExprBuilder:
     def def_exprs(self, l):
         """one expression per (non-cleanup) definition of local l"""
         out = []
+        saved = self.cur_bb
         for bb, idx, item in self.body.defs().get(l, []):
             if self.body.is_cleanup(bb):
                 continue
+            self.cur_bb = bb
             out.append(self.call(item) if idx == "term" else self.rvalue(item["rv"]))
+        self.cur_bb = saved
         return out
 
     def expand_all(self, e, limit=200):
@@ -492,6 +511,8 @@ class Poly:
 
 
 def atom_str(a):
+    if isinstance(a, tuple) and len(a) == 2 and a[0] == "sym":
+        return str(a[1])
     if isinstance(a, tuple) and a and a[0] in ("arg", "var", "upvar", "field", "idx", "call", "len",
                                                "cast", "c", "bin", "un", "variant"):
         return show(a)
